@@ -1583,6 +1583,19 @@ class _Deep(ast.NodeTransformer):
             i += 1
         return out
 
+    def visit_Compare(self, node):
+        # D21: `a <= b < c` with side-effect-free middle operands  ->  `a <= b and b < c`
+        node = self.generic_visit(node)
+        if isinstance(node, ast.Compare) and len(node.ops) > 1 and all(_call_free(c) for c in node.comparators[:-1]):
+            parts = []
+            left = node.left
+            for op, right in zip(node.ops, node.comparators):
+                parts.append(ast.Compare(left=copy.deepcopy(left), ops=[op], comparators=[copy.deepcopy(right)]))
+                left = right
+            self.changed = True
+            return ast.copy_location(ast.BoolOp(op=ast.And(), values=parts), node)
+        return node
+
     def _canon_conditions(self, node):
         if isinstance(node, (ast.If, ast.While, ast.IfExp)):
             before = ast.dump(node.test)
